@@ -235,6 +235,13 @@ def r13_3(ck: Check) -> None:
         sp3 = Spec(s3, ("self", "t"))
     calls, near = find_calls(s3, CONS + "validate_non_coinbase_transaction_in_coinstate",
                              [sp3.term("t"), sp3.term("self.coinstate.current_chain_hash"), sp3.term("self.coinstate")], (), (), None, True)
+    if not calls and len(s2.fi.params) >= 2:
+        # ... or against the state handed to the clean-up, which is the state just stored (checked above: set_coinstate stores its
+        # argument and passes the same argument on)
+        pv = ("v", s2.fi.params[1])
+        calls, near2 = find_calls(s3, CONS + "validate_non_coinbase_transaction_in_coinstate",
+                                  [sp3.term("t"), ("a", pv, "current_chain_hash"), pv], (), (), None, True)
+        near = near or near2
     rets = s3.returns()
     trues = [r for r in rets if r.term == C(True)]
     falses = [r for r in rets if r.term == C(False)]
